@@ -16,7 +16,8 @@ components — the source directory included — are real directories (no symlin
 `C02_cex_symlinked_ancestor`); names in the filesystem are plain (`PackNamesOK`); every link the
 walk reaches is accepted by `validSymlink`; paths below the source have fewer than `resolveFuel`
 (64) components, the bound of the path-resolution model; and the walk's fuel (`packFuel`) does not
-run out — stated as "the result is not `diverged`".
+run out — stated as "the result is not `diverged`"; `C02_fuel_sufficient` gives an explicit
+sufficient size bound (`2 * fs.length + 2 ≤ packFuel`).
 -/
 namespace Slug
 
@@ -111,7 +112,12 @@ theorem C02Scope.ctx {fs : FS} {cwd : Str} {o : PackOpts} {src : Str} (h : C02Sc
   final `/` for a directory), type by kind, mode `perm &&& 0o777`, time `roundSec mtime`, the
   file's content, the link's target as written (links: mode `0o777`, time 0);
 * every directory is written before everything below it: all proper ancestors of an entry's path
-  occur as directory entries earlier in the list. -/
+  occur as directory entries earlier in the list;
+* the paths increase strictly in the lexicographic order on component lists (components compared
+  as character lists, i.e. in the byte order of their UTF-8 encodings, as `readDirNames` sorts):
+  a directory, then its children in sorted order, each followed by its own subtree.
+Together with the second clause this determines the list: it is *the* name-sorted pre-order
+listing of the source tree. -/
 theorem C02_pack_preorder (h : C02Scope fs cwd o src) :
     (pack fs cwd o src).2 = .ok ∧
     ((pack fs cwd o src).1.entries.map (fun e => entryRel e.name)).Nodup ∧
@@ -120,7 +126,8 @@ theorem C02_pack_preorder (h : C02Scope fs cwd o src) :
     (∀ e ∈ (pack fs cwd o src).1.entries, ∃ nd, rtRaw fs (pathSegs src) (entryRel e.name) = some nd ∧
       nd ≠ .special ∧ e = rtEntry (entryRel e.name) nd) ∧
     (∀ A e B, (pack fs cwd o src).1.entries = A ++ e :: B → ∀ q ∈ properPrefixes (entryRel e.name),
-      ∃ d ∈ A, d.isDir = true ∧ entryRel d.name = q) :=
+      ∃ d ∈ A, d.isDir = true ∧ entryRel d.name = q) ∧
+    ((pack fs cwd o src).1.entries.map (fun e => entryRel e.name)).Pairwise (· < ·) :=
   rt_pack_preorder h.ctx h.noIgnore h.fuel
 
 /-- the third clause of `C02_pack_preorder` in terms of the abstract tree: the node an entry stands
@@ -203,6 +210,29 @@ theorem C02_roundtrip_model_partial (h : C02Scope fs cwd o src)
     (fun e he => hshallow _ ((hkeys _).mp (List.mem_map.mpr ⟨e, he, rfl⟩)))
     ht
   exact ⟨hok, fun r hr => by rw [hget r hr, htree r hr]⟩
+
+/-- **C02_fuel_sufficient.** An explicit sufficient fuel: under the other hypotheses of the scope,
+a filesystem with at most `(packFuel - 2) / 2 = 1999` bindings is never reported as `diverged`
+(two units of fuel per binding: one for `walk`, one for the callback or the directory loop). -/
+theorem C02_fuel_sufficient
+    (h1 : o.applyIgnore = false) (h2 : o.dereference = false) (h3 : AbsClean src)
+    (h4 : ∀ q, q ≠ [] → q <+: pathSegs src → ∃ perm mt, fs.get q = some (.dir perm mt))
+    (h5 : PackNamesOK fs) (h6 : ∀ e ∈ fs, pathSegs src <+: e.1 → e.1.length < resolveFuel)
+    (h7 : ∀ r t, srcNode fs (pathSegs src) r = some (.link t) →
+      validSymlink cwd o.allow src (ofSegs (pathSegs src ++ r)) t = true)
+    (hsize : 2 * fs.length + 2 ≤ packFuel) :
+    (pack fs cwd o src).2 ≠ .diverged :=
+  rt_pack_fuel ⟨h2, h3, h4, h5, h6, fun r t hr => h7 r t (rt_srcNode_link.mpr hr)⟩ h1 hsize
+
+/-- the scope with the fuel clause replaced by the size bound -/
+theorem C02Scope.of_size {fs : FS} {cwd : Str} {o : PackOpts} {src : Str}
+    (h1 : o.applyIgnore = false) (h2 : o.dereference = false) (h3 : AbsClean src)
+    (h4 : ∀ q, q ≠ [] → q <+: pathSegs src → ∃ perm mt, fs.get q = some (.dir perm mt))
+    (h5 : PackNamesOK fs) (h6 : ∀ e ∈ fs, pathSegs src <+: e.1 → e.1.length < resolveFuel)
+    (h7 : ∀ r t, srcNode fs (pathSegs src) r = some (.link t) →
+      validSymlink cwd o.allow src (ofSegs (pathSegs src ++ r)) t = true)
+    (hsize : 2 * fs.length + 2 ≤ packFuel) : C02Scope fs cwd o src :=
+  ⟨h1, h2, h3, h4, h5, h6, h7, C02_fuel_sufficient fs cwd o src h1 h2 h3 h4 h5 h6 h7 hsize⟩
 
 /-- the hypotheses of `C02Scope` that quantify over all paths, from finite checks (for closed
 examples) -/
